@@ -223,7 +223,7 @@ func (w *World) newInst(spec InstSpec) *Inst {
 	cfg := leader.ElectionConfig{
 		Bucket:                 "b",
 		Group:                  in.group(),
-		InstanceID:             spec.ID,
+		InstanceID:             w.scn.cfgID(spec.ID),
 		TTL:                    s.TTL,
 		HeartbeatInterval:      s.H,
 		ValidationInterval:     s.Validation,
